@@ -150,6 +150,28 @@ DIRECTED_HISTORY = [
 ]
 
 
+# --no-overwrite meets a support file that exists while no type file of the run does; empty placeholders at generated paths
+DIRECTED_HISTORY_B = [
+    {"support": "only", "mode": 0o644},
+    {"no_overwrite": True},
+    {"support": "only", "mode": 0o444},
+    {"no_overwrite": True, "pp": "trim+limit1"},
+    {"support": "never", "mode": 0o600},
+    {"no_overwrite": True, "support": "always"},
+]
+DIRECTED_HISTORY_C = [
+    {"plant": "type", "content": "", "mode": 0o640},
+    {"no_overwrite": True, "support": "never"},
+    {"plant": "support", "content": "", "mode": 0o640},
+    {"no_overwrite": True, "support": "only"},
+    {"plant": "type", "content": "x", "mode": 0o444},
+    {"no_overwrite": True},
+    {"mode": 0o664},
+    {"plant": "type", "content": "", "mode": 0o444},
+    {"mode": 0o600, "support": "never"},
+]
+
+
 def make_machine(ctx: core.Ctx):
     class History(RuleBasedStateMachine):
         def __init__(self):
@@ -237,8 +259,9 @@ def make_machine(ctx: core.Ctx):
                 os.chmod(p, mode)
             self.trace.append({"op": "chmod", "files": [str(p.relative_to(self.env.out)) for p in chosen], "mode": mode})
 
-        @rule(where=st.sampled_from(["target", "elsewhere"]), pick=st.integers(0, 30), mode=st.sampled_from([0o644, 0o444, 0o600]), o=opts_strategy)
-        def plant_foreign(self, where, pick, mode, o):
+        @rule(where=st.sampled_from(["target", "elsewhere"]), pick=st.integers(0, 30), mode=st.sampled_from([0o644, 0o444, 0o600]), o=opts_strategy,
+              content=st.sampled_from(["FOREIGN CONTENT\n", "FOREIGN CONTENT\n", "", "x"]))
+        def plant_foreign(self, where, pick, mode, o, content="FOREIGN CONTENT\n"):
             env = self.env
             assert env is not None
             if where == "target":
@@ -252,9 +275,9 @@ def make_machine(ctx: core.Ctx):
             if p.exists():
                 os.chmod(p, 0o644)
             p.parent.mkdir(parents=True, exist_ok=True)
-            p.write_text("FOREIGN CONTENT\n")
+            p.write_text(content)
             os.chmod(p, mode)
-            self.trace.append({"op": "plant", "file": rel, "mode": mode})
+            self.trace.append({"op": "plant", "file": rel, "mode": mode, "content": content})
 
         @precondition(lambda self: self.env is not None and any(self.env.out.rglob("*.*")))
         @rule(pick=st.integers(0, 30))
@@ -299,14 +322,26 @@ def run(ctx: core.Ctx):
     n = 20 if ctx.quick else 120
     machine = make_machine(ctx)
     # directed histories first (one per target): every option dimension is varied once on its own over a populated directory
-    for lang in ("c", "py", "cpp"):
+    for lang, history in [(l, h) for l in ("c", "py", "cpp") for h in (DIRECTED_HISTORY, DIRECTED_HISTORY_B, DIRECTED_HISTORY_C)]:
         m = machine()
         m.env = Env(DIRECTED_UNIVERSE, lang)
         m.trace.append({"op": "init", "lang": lang, "directed": True})
         base = {"mode": 0o644, "no_overwrite": False, "omit": False, "support": "as-needed", "pp": ""}
         try:
-            for step in DIRECTED_HISTORY:
-                if "chmod_all" in step:
+            for step in history:
+                if "plant" in step:
+                    # a foreign file (possibly EMPTY) at a path the next run generates: first type file / support file
+                    model = sorted(m.env.model_files(dict(base, support="always")))
+                    cands = [f for f in model if ("nunavut" in f) == (step["plant"] == "support")]
+                    rel = cands[0]
+                    f = m.env.out / rel
+                    if f.exists():
+                        os.chmod(f, 0o644)
+                    f.parent.mkdir(parents=True, exist_ok=True)
+                    f.write_text(step["content"])
+                    os.chmod(f, step["mode"])
+                    m.trace.append({"op": "plant", "file": rel, "mode": step["mode"], "content": step["content"]})
+                elif "chmod_all" in step:
                     files = sorted(p for p in m.env.out.rglob("*") if p.is_file())
                     for f in files:
                         os.chmod(f, step["chmod_all"])
@@ -345,7 +380,7 @@ def replay(ctx: core.Ctx, case):
                     if p.exists():
                         os.chmod(p, 0o644)
                     p.parent.mkdir(parents=True, exist_ok=True)
-                    p.write_text("FOREIGN CONTENT\n")
+                    p.write_text(t.get("content", "FOREIGN CONTENT\n"))
                     os.chmod(p, t["mode"])
                 elif t["op"] == "truncate":
                     p = m.env.out / t["file"]
